@@ -33,6 +33,17 @@ def distributions(kind, a, b):
     return op, op.get_distributions()[0]
 
 
+def ref_cdf(kind, a, b, mu=None, sigma=None):
+    """reference distribution function computed from the REQUESTED parameters (not from the library object)"""
+    from scipy.stats import norm
+    if kind == 'uniform':
+        return lambda x: (x - a) / (b - a)
+    if kind == 'triangle':
+        c = 0.5 * (a + b)
+        return lambda x: (x - a) ** 2 / ((b - a) * (c - a)) if x <= c else 1.0 - (b - x) ** 2 / ((b - a) * (b - c))
+    return lambda x: float(norm.cdf(x, loc=mu, scale=sigma))
+
+
 def test_tree(rep, st, tier):
     from sparseSpACE.Grid import GlobalTrapezoidalGridWeighted as GW
     pos = list(st['pos'])
@@ -120,12 +131,50 @@ def test_tree(rep, st, tier):
                 except Exception as ex:
                     fail('C15_NoException', '%s midpoint raised %r' % (kind, ex), sig={'distribution': kind, 'exception': type(ex).__name__})
                     break
-                pl, pr = float(distr.cdf(m) - distr.cdf(x1)), float(distr.cdf(x2) - distr.cdf(m))
+                cdf = ref_cdf(kind, a, b, 0.5 * (a + b), (b - a) / 6.0)
+                pl, pr = float(cdf(m) - cdf(x1)), float(cdf(x2) - cdf(m))
                 rep.count(1, key=('mid', kind, tuple(pos), i, a, b))
                 if not (x1 < m < x2) or abs(pl - pr) > 1e-9 * max(1e-3, pl + pr):
                     fail('C15_MidpointHalvesProbability', '%s midpoint of [%r,%r] is %r (probabilities %r / %r)' % (kind, x1, x2, m, pl, pr), sig={'distribution': kind})
                     break
     rep.sample({'tree': pos, 'uniform_weights': [str(q) for q in wuni], 'triangle_weights': [str(q) for q in wtri] if wtri else None}, limit=3)
+
+
+def multi_dim_midpoints(rep, tier):
+    """one operation with several dimensions of different distribution parameters: every dimension must use its own"""
+    from sparseSpACE.GridOperation import UncertaintyQuantification
+    from sparseSpACE.Grid import GlobalTrapezoidalGridWeighted
+    from sparseSpACE.Function import ConstantValue
+    from scipy.stats import norm
+    cases = [[("Normal", 0.0, 1.0), ("Normal", 2.0, 0.25)], [("Normal", -1.0, 0.5), ("Normal", 0.3, 2.0), ("Normal", 4.0, 1.0)],
+             [("Uniform",), ("Normal", 1.0, 0.1)], [("Triangle", 0.5), ("Normal", 0.0, 3.0), ("Uniform",)]]
+    for info in cases:
+        D = len(info)
+        a = np.array([-np.inf if k[0] == "Normal" else 0.0 for k in info])
+        b = np.array([np.inf if k[0] == "Normal" else 1.0 for k in info])
+        try:
+            op = UncertaintyQuantification(ConstantValue(1.0), [tuple(k) for k in info], a, b)
+            grid = GlobalTrapezoidalGridWeighted(a, b, op, boundary=False)
+        except Exception as ex:
+            rep.violation('C15_NoException', {'distribution': 'multi', 'exception': type(ex).__name__}, {'info': str(info), 'exception': repr(ex)}, what='%s raised %r' % (info, ex))
+            continue
+        for d, k in enumerate(info):
+            if k[0] == "Normal":
+                cdf = lambda x, _k=k: float(norm.cdf(x, loc=_k[1], scale=_k[2]))
+                ivs = [(-np.inf, k[1]), (k[1], np.inf), (k[1] - k[2], k[1] + 2 * k[2]), (k[1] + k[2], k[1] + 3 * k[2])]
+            else:
+                cdf = ref_cdf(k[0].lower(), 0.0, 1.0)
+                ivs = [(0.0, 1.0), (0.0, 0.5), (0.25, 0.75), (0.5, 1.0)]
+            for x1, x2 in ivs:
+                with impl.quiet():
+                    m = grid.get_mid_point(x1, x2, d)
+                pl, pr = cdf(m) - cdf(x1), cdf(x2) - cdf(m)
+                rep.count(1, key=('multimid', str(info), d, x1, x2))
+                if not (x1 < m < x2) or abs(pl - pr) > 1e-8 * max(1e-3, pl + pr):
+                    rep.violation('C15_MidpointHalvesProbability', {'distribution': k[0].lower(), 'multi_dim': True},
+                                  {'info': str(info), 'dimension': d, 'interval': [x1, x2], 'midpoint': m, 'probabilities': [pl, pr]},
+                                  what='operation %s dimension %d: midpoint of [%r,%r] is %r (probabilities %r / %r under the configured distribution)' % (info, d, x1, x2, m, pl, pr))
+                    break
 
 
 def moment_runs(rep, tier, rng):
@@ -171,8 +220,15 @@ def moment_runs(rep, tier, rng):
                         else:
                             combi.continue_adaptive_refinement(tol=0, max_evaluations=mx)
                         E, V = op.calculate_expectation_and_variance(combi)
+                        E_, V_ = op.calculate_expectation_and_variance(combi)      # reading the moments out must not change them
                     mx = combi.get_total_num_points()
                     E, V = [float(x) for x in E], [float(x) for x in V]
+                    same = all(abs(x - float(y)) <= 1e-12 * max(1.0, abs(x)) for x, y in zip(E + V, list(E_) + list(V_)))
+                    rep.residual('C15_ReadoutRepeatable', same)
+                    if not same:
+                        rep.violation('C15_VarianceQuadratic', {'distribution': kind, 'boundary': bnd, 'D': D, 'second_readout': True},
+                                      {'case': name, 'evaluation': k + 1, 'first': [E, V], 'second': [[float(x) for x in E_], [float(x) for x in V_]]},
+                                      what='%s after %d evaluations: second read-out of expectation/variance differs: %s vs %s' % (name, k + 1, [E, V], [list(E_), list(V_)]))
                     rep.count(1, key=(name, k))
                     scale = max(1.0, abs(E[0]), abs(c * E[0] + e))
                     checks = {'C15_ExpectationAffine': abs(E[1] - (c * E[0] + e)) <= 1e-9 * scale,
@@ -198,6 +254,7 @@ def run(tier, seed):
     for sid in sorted(g.states):
         test_tree(rep, g.states[sid], tier)
     rep.cov['spec_states_tested_on_impl'] = len(g.states)
+    multi_dim_midpoints(rep, tier)
     moment_runs(rep, tier, rng)
     rep.cov['exhaustive'] = True
     rep.cov['rule'] = ('every refinement tree of TreeQuad.tla x boxes x {uniform, triangle} (weights against spec rationals) and x {uniform, triangle, normal} '
